@@ -263,6 +263,10 @@ def _gen_session(wl, plan, s, plots):
                     op['only_result'] = wl.random() < 0.5
                 ops.append(op)
                 n_plots += 1
+    for op in ops:
+        if op['fn'] in ('cf', 'shape', 'cyclepoints', 'extrema', 'bfrac', 'bandamp', 'cf2d', 'cf3d') \
+                and wl.random() < 0.25:
+            op['fr'] = 'FR0'
     if plots:
         for _ in range(wl.choice((1, 2))):
             t = pick(('features',), samples=True, method='cycles')
@@ -308,6 +312,7 @@ class ArgPool:
                 sig = np.round(sig * 100).astype(np.int64)
             self._add('S%d' % k, sig, 'signal')
         self._add('A0', np.array([build_signal(s, band) for s in plan['array2d']]), 'array2d')
+        self._add('FR0', list(band['f_range']), 'f_range-list')
         sh = plan['array3d']['shape']
         arr = np.array([build_signal(s, band) for s in plan['array3d']['specs']])
         self._add('B0', arr.reshape(sh[0], sh[1], -1), 'array3d')
@@ -407,6 +412,8 @@ def build_call(op, get, band):
     import bycycle.utils.dataframes as DFU
     import bycycle.plts as P
     fs, f_range = band['fs'], tuple(band['f_range'])
+    if op.get('fr'):
+        f_range = get(op['fr'])          # the caller's own [low, high] list, by reference
     fn = op['fn']
 
     def opt(name):
@@ -534,7 +541,7 @@ def _pure_eval(op, values, band):
 def op_names(op):
     """Pool names an operation draws by reference."""
     out = []
-    for k in ('sig', 'th', 'bk', 'fe', 'fk', 'table', 'ext', 'zx'):
+    for k in ('sig', 'th', 'bk', 'fe', 'fk', 'table', 'ext', 'zx', 'fr'):
         if op.get(k):
             out.append(op[k])
     ck = op.get('ck')
